@@ -338,8 +338,9 @@ def write_evidence(prop, tier, seed, results, all_obs, discharged, sat, unknown,
   ev = {
       'property_id': prop, 'tier': tier if tier in ('quick', 'thorough') else 'quick', 'seed': seed, 'level': 'proof',
       'coverage': {
-          'obligations': len(all_obs) - len([o for o in sat if o['name'] in set(k['name'] for (_, k) in known_hits)]),
-          'discharged': len(discharged),
+          # obligations named by a known finding are listed separately (on some paths they are refuted or undecided)
+          'obligations': len([o for o in all_obs if o['name'] not in set(k['name'] for (_, k) in known_hits)]),
+          'discharged': len([o for o in discharged if o['name'] not in set(k['name'] for (_, k) in known_hits)]),
           'known_finding_obligations': sorted(set(o['name'] for (_, o) in known_hits)),
           'checker_cmd': './check %s --tier %s' % (prop, tier),
           'trusted_base': sorted('%s x%d' % (k, v) for k, v in trusted.items()),
